@@ -128,6 +128,14 @@ def families(tier: str) -> list[dict]:
                            len(sc0), micro=[1], exhaustive=True, spec_depth=4,
                            script=sc0, save_args=(True,),
                            load_args=(True, False)))
+    # checkpoint round trips INSIDE an accumulation window / between the
+    # passes and the step (same instance): pending batch statistics and the
+    # micro-step counter survive the load
+    for hook, acc in ((True, 2), (False, 1), (False, 2)):
+        cw = dict(base, F=1, I=1, in_hook=hook, accum=acc)
+        fams.append(reffam.fam(cw, ['Train', 'Step', 'Save', 'Rollback'],
+                               6 if quick else 7, micro=[1],
+                               save_args=(True,), load_args=(True, False)))
     for nlate, comp, extra in scripts:
         cz = dict(base, F=extra.pop('F', 2), I=extra.pop('I', 3),
                   in_hook=True, accum=1, **extra)
